@@ -127,15 +127,32 @@ class Campaign:
                     if key not in nontrivial_sigs and len(samples) < 3:
                         samples.append(spec.sample(t, r))
                     nontrivial_sigs.add(key)
-        if not samples and tasks:
+        if not samples and tasks and not getattr(spec, "aggregate", False):
             for t, r in zip(tasks, results):
                 if not r.get("error"):
                     samples.append(spec.sample(t, r))
                     break
+        if getattr(spec, "aggregate", False):
+            # each task is a chunk of many cases; the chunk reports its own measured counts and case hashes
+            hashes = set()
+            nt_hashes = set()
+            ncases = 0
+            for r in results:
+                ncases += r.get("cases") or 0
+                hashes.update(r.get("case_hashes") or [])
+                nt_hashes.update(r.get("nontrivial_hashes") or [])
+            samples = []
+            for r in results:
+                for smp in r.get("samples") or []:
+                    if len(samples) < 3:
+                        samples.append(smp)
+            n_eval, n_nt, n_dist = ncases, len(nt_hashes), len(hashes)
+        else:
+            n_eval, n_nt, n_dist = len(tasks), len(nontrivial_sigs), len(sigs)
         cov = {
-            "evaluations": len(tasks),
-            "distinct_nontrivial": len(nontrivial_sigs),
-            "distinct_executions": len(sigs),
+            "evaluations": n_eval,
+            "distinct_nontrivial": n_nt,
+            "distinct_executions": n_dist,
             "rule": spec.rule,
             "samples": samples or [{"note": "no execution completed"}],
             "inconclusive_executions": inconclusive,
